@@ -720,7 +720,11 @@ class Emitter:
                 for x_ in f.blocks[b]:
                     ptrs = []
                     if x_.op == 'store': ptrs = [x_.ptr]
-                    elif x_.op in ('call', 'invoke'): ptrs = list(x_.args)
+                    elif x_.op in ('call', 'invoke'):
+                        cn_ = x_.callee.name if x_.callee.kind == 'global' else ''
+                        if cn_.startswith(('@llvm.memcpy', '@llvm.memmove')): ptrs = [x_.args[0]]      # only the destination is written
+                        elif cn_.startswith(('@llvm.lifetime', '@llvm.dbg', '@llvm.assume', '@llvm.expect')): ptrs = []
+                        else: ptrs = list(x_.args)
                     elif x_.op in ('cmpxchg', 'atomicrmw'): ptrs = [x_.ptr]
                     for p_ in ptrs:
                         if p_.kind == 'local' and p_.name in root_alloca: hv[root_alloca[p_.name]] = 1
@@ -1007,18 +1011,24 @@ class Emitter:
         else:
             cname = '(%s)' % s.val(cal)
         if cal.kind == 'global' and cal.name.startswith('@llvm.memcpy') and x.args[2].kind == 'const':
-            d0 = s.cur_defs.get(x.args[0].name) if x.args[0].kind == 'local' else None
-            s0 = s.cur_defs.get(x.args[1].name) if x.args[1].kind == 'local' else None
-            if d0 is not None and s0 is not None and d0.op == 'cast' and s0.op == 'cast' and d0.cop == 'bitcast' and s0.cop == 'bitcast' \
-               and repr(d0.val.ty) == repr(s0.val.ty) and isinstance(d0.val.ty, Ptr):
-                try:
-                    sz, _ = s.size_align(d0.val.ty.t)
-                except Exception: sz = -1
-                if sz == int(x.args[2].text):
-                    return ['*%s = *%s; /* typed memcpy %d */' % (s.val(d0.val), s.val(s0.val), sz)]
+            # a constant-size copy whose source or destination is (a bitcast of) a pointer to an aggregate of exactly that size is a
+            # typed struct assignment: CBMC then keeps pointer members intact (byte-wise copies lose pointer provenance)
+            n_ = int(x.args[2].text); ty_ = None
+            for a_ in (x.args[0], x.args[1]):
+                df = s.cur_defs.get(a_.name) if a_.kind == 'local' else None
+                if df is not None and df.op == 'cast' and df.cop == 'bitcast' and isinstance(df.val.ty, Ptr) and not isinstance(s.resolve(df.val.ty.t), (Int, Flt, Ptr, Void, Other, Fn)):
+                    try: sz = s.size_align(df.val.ty.t)[0]
+                    except Exception: sz = -1
+                    if sz == n_: ty_ = df.val.ty.t; break
+            if ty_ is not None:
+                return ['*(%s *)%s = *(%s *)%s; /* typed memcpy %d */' % (s.cty(ty_), s.val(x.args[0]), s.cty(ty_), s.val(x.args[1]), n_)]
         if cal.kind == 'global' and cal.name.startswith('@llvm.memcpy') and x.args[2].kind == 'const' and int(x.args[2].text) in (1, 2, 4, 8):
             n_ = int(x.args[2].text)      # small constant-size copy: one scalar load/store instead of a byte loop
             return ['VERIF_MEMCPY_SMALL(%s, %s, %d);' % (s.val(x.args[0]), s.val(x.args[1]), n_ * 8)]
+        if cal.kind == 'global' and cal.name.startswith(('@llvm.memcpy', '@llvm.memmove')) and x.args[2].kind == 'const':
+            # constant-size copies (struct copies, small buffers) are always exact; only symbolic-length copies go through VERIF_MEMCPY,
+            # which a harness may redirect to the witness contract
+            return ['VERIF_MEMCPY_CONST(%s, %s, %s);' % (s.val(x.args[0]), s.val(x.args[1]), s.val(x.args[2]))]
         isvoid = isinstance(x.rty, Void)
         if not isvoid: decl(x.res or ('__unused%d' % id(x)), x.rty)
         lhs = '' if isvoid or not x.res else r + ' = '
@@ -1071,14 +1081,21 @@ def load(path):
     return M
 
 def resolve_names(M, table, what):
-    """table: {alias: regex over demangled names}; each must match exactly one definition"""
-    res = collections.OrderedDict()
+    """table: {alias: regex over demangled names}; each must match exactly one definition.  An alias ending in '*' may match one or more
+    definitions (template instantiations that share one contract): they become ALIAS_0, ALIAS_1, ... plus an ALIAS_FOREACH(X) macro."""
+    res = collections.OrderedDict(); groups = collections.OrderedDict()
     for alias, rx in table.items():
         hits = [n for n in M.funcs if re.search(rx, M.dem[n])]
+        if alias.endswith('*'):
+            if not hits: raise ExtractionError('%s %s: regex %r matches no definition' % (what, alias, rx))
+            groups[alias[:-1]] = []
+            for k, h in enumerate(sorted(hits)): res['%s_%d' % (alias[:-1], k)] = h; groups[alias[:-1]].append('%s_%d' % (alias[:-1], k))
+            continue
         if len(hits) != 1:
             raise ExtractionError('%s %s: regex %r matches %d definitions%s' % (what, alias, rx, len(hits),
                                   ''.join('\n    ' + M.dem[h][:200] for h in hits[:6])))
         res[alias] = hits[0]
+    res.groups = groups
     return res
 
 def translate(M, roots, stubs=None, rt1='verif_rt.h', rt2='verif_rt2.h'):
@@ -1164,6 +1181,8 @@ def translate(M, roots, stubs=None, rt1='verif_rt.h', rt2='verif_rt2.h'):
     for v in vecs: o.append('#define VERIF_HAVE_%s 1' % v)
     o.append('#include "%s"' % rt2)
     o.extend(sig)
+    for g_, members_ in list(getattr(rn, 'groups', {}).items()) + list(getattr(sn, 'groups', {}).items()):
+        o.append('#define %s_FOREACH(X) %s' % (g_, ' '.join('X(%s)' % m_ for m_ in members_)))
     b = []
     loops = []
     for fid, lab, dem_ in E.loop_hooks:
